@@ -54,6 +54,8 @@ type Run struct {
 	violations  []string
 	exhaustive  map[string]bool
 	phase       int
+	states      map[uint64]struct{} // model_checking level: distinct protocol states visited
+	counters    map[string]int64    // extra measured counts merged by summation (e.g. transitions)
 
 	wdMu      sync.Mutex
 	wdSince   time.Time
@@ -109,6 +111,8 @@ func New(id string) *Run {
 	r.labels = map[string]int64{}
 	r.excluded = map[string]int64{}
 	r.exhaustive = map[string]bool{}
+	r.states = map[uint64]struct{}{}
+	r.counters = map[string]int64{}
 	return r
 }
 
@@ -225,6 +229,24 @@ func (r *Run) Note(format string, a ...any) {
 	if len(r.notes) < 50 {
 		r.notes = append(r.notes, fmt.Sprintf(format, a...))
 	}
+}
+
+// State records a visited state (by hash) of the system under a controlled schedule.
+func (r *Run) State(h uint64) {
+	r.mu.Lock()
+	if !r.failing && len(r.states) < 4*maxHashes {
+		r.states[h] = struct{}{}
+	}
+	r.mu.Unlock()
+}
+
+// Count adds n to a named counter of the evidence (summed over shards).
+func (r *Run) Count(name string, n int64) {
+	r.mu.Lock()
+	if !r.failing {
+		r.counters[name] += n
+	}
+	r.mu.Unlock()
 }
 
 // SetExhaustive records that a named enumeration was completed.
@@ -353,6 +375,7 @@ type Fragment struct {
 	Notes       []string         `json:"notes"`
 	Violations  []string         `json:"violations"`
 	Exhaustive  map[string]bool  `json:"exhaustive"`
+	Counters    map[string]int64 `json:"counters,omitempty"`
 	WallS       float64          `json:"wall_s"`
 }
 
@@ -363,7 +386,7 @@ func (r *Run) Flush() {
 	f := Fragment{Property: r.ID, Shard: r.Shard, Evals: r.evals, ShrinkEvals: r.shrinkEvals,
 		Nontrivial: r.nontrivial, Saturated: r.saturated, Labels: r.labels, Samples: r.samples,
 		Excluded: r.excluded, KnownLines: r.knownLines, Notes: r.notes, Violations: r.violations,
-		Exhaustive: r.exhaustive, WallS: time.Since(r.start).Seconds()}
+		Exhaustive: r.exhaustive, Counters: r.counters, WallS: time.Since(r.start).Seconds()}
 	b, _ := json.Marshal(f)
 	os.WriteFile(filepath.Join(r.Out, fmt.Sprintf("frag_%d.json", r.Shard)), b, 0o644)
 	hs := make([]uint64, 0, len(r.hashes))
@@ -376,6 +399,13 @@ func (r *Run) Flush() {
 		binary.LittleEndian.PutUint64(hb[8*i:], h)
 	}
 	os.WriteFile(filepath.Join(r.Out, fmt.Sprintf("frag_%d.hashes", r.Shard)), hb, 0o644)
+	if len(r.states) > 0 {
+		sb := make([]byte, 0, 8*len(r.states))
+		for h := range r.states {
+			sb = binary.LittleEndian.AppendUint64(sb, h)
+		}
+		os.WriteFile(filepath.Join(r.Out, fmt.Sprintf("frag_%d.states", r.Shard)), sb, 0o644)
+	}
 }
 
 // Failed tells whether a violation was recorded by this shard.
